@@ -5,6 +5,7 @@ import random
 
 from vmon import canon
 from vmon import gens as G
+from vmon.gens import THOROUGH_SCALE as TS
 from vmon import oracles as O
 
 PID = "C18"
@@ -408,7 +409,7 @@ def generate(tier, seed):
     yield "standardize", {"rows": rows3, "cols": ["foo", "bar", "baz", "count"], "options": {}, "col_mapper": mapper}, True
     yield "standardize", {"rows": rows3, "cols": ["foo", "bar", "baz", "count"], "options": {"standardize": False}, "col_mapper": mapper, "index": "permuted"}, True
     yield "standardize", {"rows": rows3, "cols": ["foo", "bar", "baz", "count"], "options": {"tcr_precision": "allele"}, "col_mapper": mapper, "index": "string"}, True
-    for i in range(400 if thorough else 24):
+    for i in range(400 * TS if thorough else 24):
         k = rng.randint(1, 9)
         cols = rng.sample(STD_COLS, k) + (["count"] if i % 2 else []) + (["note"] if i % 3 == 0 else [])
         rng.shuffle(cols)
@@ -431,7 +432,7 @@ def generate(tier, seed):
     yield "multimerge", {"tables": base, "on": "index"}, True
     yield "multimerge", {"tables": base, "on": "index", "suffixes": ["s1", "s2"]}, True
     yield "multimerge", {"tables": base, "on": "k", "how": "inner"}, True
-    for i in range(600 if thorough else 60):
+    for i in range(600 * TS if thorough else 60):
         nt = rng.randint(2, 4)
         tables = _mm_tables(rng, nt, dup=(i % 11 == 0))
         on = "index" if i % 3 == 0 else "key"
